@@ -637,6 +637,11 @@ func c09Directed() []c09case {
 	for _, t := range []string{"a", "a/x", "a-b", "./a/", "/a", "missing", "a/x/y", "a/missing", "nx/../a b"} {
 		add(0x0901, L(classic, L(), S(t), NI(0)), "sub-target "+t+" (a-b alone: its first link is outside the walked set)")
 	}
+	// inode group {a/x, a/z, a-b} against sub-targets: seenFiles is per Walk call, so only the members at or
+	// below the target count (target a: a/x file, a/z link to a/x; targets a-b and a/z alone: plain files)
+	for _, t := range []string{"", "a", "a-b", "a/z", "a/x"} {
+		add(0x0901, L(classic, L(L(S("a/x"), S("a/z"))), S(t), NI(0)), "three names of one inode, target '"+t+"': the group is cut at the target")
+	}
 	special := []*MNode{
 		c09Dir("d", c09File("f", "x")),
 		c09Special("p", os.ModeNamedPipe|0640, 0, 0),
@@ -679,6 +684,8 @@ func c09Directed() []c09case {
 	add(0x0902, L(L(L(dst("a-b"), classic, L()), L(dst("a"), classic, L()), L(dst("a b"), L(), L())), S("")), "sub-roots a, 'a b', a-b: a/... before 'a b'")
 	add(0x0902, L(L(L(dst("s"), classic, L()), L(dst("r"), ViewSx(abs), L())), S("r/a")), "composite, target r/a")
 	add(0x0902, L(L(L(dst("s"), classic, L()), L(dst("s"), classic, L())), S("")), "duplicate sub-root name")
+	add(0x0902, L(L(L(dst("s"), classic, L()), L(dst("t"), classic, L(L(S("../../s0/r/a/x"), S("zz")), L(S("../../s0/r/a b"), S("a/!k"))))), S("")),
+		"files of sub-root s hard-linked into sub-root t: every sub-root has its own inode map, t/zz and t/a/!k are plain files, link names never cross sub-roots")
 	add(0x0902, L(L(L(dst("s"), classic, L(), NI(c09RootSymRel)), L(dst("r"), ViewSx(abs), L(), NI(c09RootSymDotDot)), L(dst("q"), classic, L(), NI(c09RootMidSymAbs))), S("")),
 		"sub-roots given as a symlink, as sl/../r (.. after a symlink) and through a symlinked parent")
 	add(0x0902, L(L(L(dst("s/t"), classic, L())), S("")), "sub-root name with separator")
